@@ -12,6 +12,27 @@ C = 'histories: BFS over operation sequences against a model of the global gener
 
 # id -> (engine, technique, level text, level note, design ref)
 CHECKS = {
+    'C08': ('smallscope', 'bounded-exhaustive enumeration of small (di)graphs vs enumeration of all minimum-length simple paths',
+            'All binary digraphs n<=4 / graphs n<=5 and lengths {1,2},{1,2,3} on 3-4 nodes (thorough: lengths {1,2} on all 4-node digraphs, '
+            '5-node graphs, binary n=6): betweenness_bin/_wei, edge_betweenness_bin/_wei node and edge values equal the sum over ordered pairs of '
+            'the fraction of shortest paths through the node/edge obtained by listing every shortest simple path; sum identities on binary graphs.',
+            'trusted: path-enumeration oracle (bctmc/oracles.py); integer lengths so ties are exact', 'DESIGN.md section 4 C08'),
+    'C09': ('smallscope', 'bounded-exhaustive enumeration of small (di)graphs vs triple-loop formulas',
+            'All graphs n<=5 / digraphs n<=4 (binary), weights {1/8,1} on 4-node graphs and 3-node digraphs, signed {-1,-1/8,0,1/8,1} on 4 nodes '
+            '(thorough: binary n=6, weighted n=5 / dir n=4): the five clustering coefficients (3 signed types) and four transitivities equal '
+            'triple-loop evaluations of the Watts-Strogatz / Fagiolo / Onnela / Zhang-Horvath / Costantini-Perugini formulas; exact zeros; range [0,1].',
+            'trusted: triple-loop reference formulas in checks/c09.py; transitivity judged only when a connected triple exists', 'DESIGN.md section 4 C09'),
+    'C10': ('smallscope', 'bounded-exhaustive differential enumeration: weighted vs binary, directed vs undirected, weighted vs binarised input',
+            'Every 0/1 digraph n<=4 and graph n<=5 (n=6 for the path-based pairs) through each weighted/binary pair, every symmetric matrix over '
+            '{0,1/8,1} on 4 nodes through each directed/undirected pair, weighted matrices vs their binarisation through the weight-ignoring routines; '
+            'the two members of a pair must return the same value (or raise the same exception type).',
+            'differential oracle only: a defect shared by both members of a pair is invisible here (C03/C08/C09 judge them against definitions)', 'DESIGN.md section 4 C10'),
+    'C12': ('smallscope', 'bounded-exhaustive enumeration of graphs x all (s,t) x transforms; returned paths are walked on the input',
+            'distance_wei_floyd+retrieve_shortest_path on all small (di)graphs over integer lengths, dyadic weights (inv/log) and float near-tie '
+            'alphabets, every ordered pair: path starts/ends right, uses existing connections, has the reported hops and length, empty iff unreachable, '
+            'reported length is the true minimum. navigation_wu on all (L, D, max_hops) of a small scope: every path is a walk, reported lengths are '
+            'those of the walk, failures infinite in all three, success ratio.',
+            'navigation_wu exercised on undirected L only; trusted: bctmc/oracles.py min-plus', 'DESIGN.md section 4 C12'),
     'C03': ('smallscope', 'bounded-exhaustive enumeration of all small (di)graphs vs exact-hop min-plus / BFS reference model',
             'Every labelled digraph n<=4 / graph n<=5 (binary), lengths {1,2,3} on 3-node digraphs and 4-node graphs, dyadic '
             'weights for the inv/log transforms (thorough: lengths {1,2} on all 531441 4-node digraphs, 5-node graphs, binary n=6) '
